@@ -1,6 +1,7 @@
 (* Check_C06.v — case format and per-case verdicts for the C06 correspondence run.
-   One case = a consumes list as declared + the API default, the route's Consumes and Consumers keys as built by the
-   real AddRoute, one request (body presence signals, Content-Type header answered by the real parser), and three
+   One case = a consumes list as declared + the API default + the consumers registered on the API, the route's
+   Consumes and Consumers keys as built by the real AddRoute, one request (body presence signals, Content-Type header
+   lines, the parser's answer for the value recorded by the harness independently of runtime.ContentType), and three
    observations: Context.BindValidRequest (t_), Context.BindAndValidate (u_), the untyped API handler (h_).
    *_cons = media type key of the instrumented consumer that actually decoded the body. *)
 From V Require Export CaseLib GateSpec.
@@ -15,36 +16,47 @@ Definition res_eqb (a b : option nat * option bytes) : bool :=
 Definition is_some_nat (o : option nat) : bool := match o with Some _ => true | None => false end.
 
 Inductive case :=
-| CGate (declared : list bytes) (default : bytes) (consumes keys : list bytes)
+| CGate (declared : list bytes) (default : bytes) (registered : list bytes) (consumes keys : list bytes)
         (cl_positive hdr nonempty hasbody_impl : bool)
-        (parse reparse : option bytes)
+        (lines : list bytes) (asked : bytes) (parse reparse : option bytes) (ct_impl : option bytes)
         (t_status : option nat) (t_cons : option bytes)
         (u_status : option nat) (u_cons : option bytes)
         (h_status : nat) (h_cons : option bytes) (h_ran : bool).
 
+(* registered = media types a consumer is registered for on the API (harness input); consumes, keys = route.Consumes
+   and the keys of route.Consumers as built by the real AddRoute; lines = the Content-Type header lines of the request;
+   asked, parse = the value the harness itself handed to mime.ParseMediaType (first line, or the default when empty or
+   absent) and the answer; ct_impl = what runtime.ContentType answered for the request's header *)
 Definition check_case (c : case) : N :=
   match c with
-  | CGate declared default consumes keys cl_positive hdr nonempty hasbody_impl parse reparse
+  | CGate declared default registered consumes keys cl_positive hdr nonempty hasbody_impl lines asked parse reparse ct_impl
           t_status t_cons u_status u_cons h_status h_cons h_ran =>
     let hb := has_body cl_positive hdr nonempty in
-    let mt := (first_status (gate_typed hb parse reparse consumes keys), decoding_consumer (gate_typed hb parse reparse consumes keys)) in
-    let mu := (first_status (gate_untyped hb parse reparse consumes keys), decoding_consumer (gate_untyped hb parse reparse consumes keys)) in
+    let mconsumes := add_route_consumes declared default in
+    let mkeys := route_consumers mconsumes registered in
+    let mt := (first_status (gate_typed hb parse reparse mconsumes mkeys), decoding_consumer (gate_typed hb parse reparse mconsumes mkeys)) in
+    let mu := (first_status (gate_untyped hb parse reparse mconsumes mkeys), decoding_consumer (gate_untyped hb parse reparse mconsumes mkeys)) in
     let corr :=
-      same_set_b consumes (add_route_consumes declared default) &&
+      same_set_b consumes mconsumes &&
+      same_set_b keys mkeys &&
       Bool.eqb hasbody_impl hb &&
+      (* runtime.ContentType = the parser on the first header line as it stands (default when empty or absent) *)
+      bytes_eqb asked (content_type_input lines) && opt_bytes_eqb ct_impl parse &&
       (* model assumption: parsing a parsed media type again gives it back *)
       match parse with Some _ => opt_bytes_eqb reparse parse | None => true end &&
       res_eqb (t_status, t_cons) mt &&
       res_eqb (u_status, u_cons) mu &&
       Nat.eqb h_status (match fst mu with Some c => c | None => 200 end) &&
       opt_bytes_eqb h_cons (snd mu) && Bool.eqb h_ran (negb (is_some_nat (fst mu))) in
-    (* the request carries a body: a positive length, or no length header and a readable byte *)
-    let ex := expected (cl_positive || (negb hdr && nonempty)) parse consumes keys in
+    (* the request carries a body: a positive length, or no length header and a readable byte.
+       The expectation is computed from the inputs alone: declared list, API default, consumers registered on the
+       API, and the independent parse of the header value *)
+    let ex := expected_route (cl_positive || (negb hdr && nonempty)) parse declared default registered in
     let prop :=
       res_eqb (t_status, t_cons) ex && res_eqb (u_status, u_cons) ex &&
       Nat.eqb h_status (match fst ex with Some c => c | None => 200 end) &&
       opt_bytes_eqb h_cons (snd ex) && Bool.eqb h_ran (negb (is_some_nat (fst ex))) &&
-      (* the API default is always admitted *)
-      (is_nilb default || admitted consumes default) in
+      (* the API default is always added to the consumes list: an entry of the route's list names it *)
+      (is_nilb default || listed_ci consumes default) in
     verdict corr prop
   end.
